@@ -28,6 +28,15 @@ PROP = [
  ("dense direct aggregation answered 0", "C04", "SUM/AVG over a group whose values are all NULL answered 0 / NaN from Parquet (dense path) and NULL from memory"),
  ("modification time preserved was read through the old footer", "C19", "after replacing a Parquet file with its mtime restored every query failed with 'Invalid page header' or panicked (process-wide footer cache keyed on path+mtime)"),
  ("rewritten within the same second to the same length", "C19", "a same-length rewrite inside one second kept being served from the sidecar of the old rows (stamp held whole seconds)"),
+ ("two derived tables exposing the same column name", "C04", "a join of two derived tables that both expose a column `id` resolved b.id and c.id to the same column (suffix matching on unrenamed inner names); which one depended on the join order, so memory and Parquet answered different rows"),
+ ("sorted by a qualified group key failed at the merge stage", "C09", "`SELECT a.k, COUNT(*) FROM t a GROUP BY a.k ORDER BY a.k` answered on one node and failed forced-distributed with 'Column not found: qe_g0' (the merge ORDER BY named a column its projection had renamed)"),
+ ("top-N over SELECT * (or unaliased qualified columns) failed to bind", "C09", "`SELECT * FROM t ORDER BY id` (and `SELECT a.s, b.k .. ORDER BY ..`) answered on one node and failed forced-distributed with 'Column not found: id': top-N partial fields arrive relation-qualified, the merge query uses output names"),
+ ("mis-handled two output columns under one name", "C09", "two output columns under one name: the top-N merge failed to bind and the two-phase merge divided by the wrong partial column (formerly known finding R13); such statements are now refused by the exact planner and gathered"),
+ ("semi and anti joins that output their build side kept one row per key", "C07", "EXISTS / NOT EXISTS over a join result: the semi join marked only the first build row per key (7 of 1987 rows), and which duplicate survived depended on the order build partitions arrived in, so the answer changed with the seeded interleaving (found by the deterministic virtual-partition tier)"),
+ ("NULL in a dictionary-encoded join key matched the empty string", "C07", "a NULL join key carried as a null VALUE of a gathered dictionary read as '' and matched rows whose key is the empty string (EXISTS over an outer join kept NULL-key rows)"),
+ ("morsel path does not implement were computed as COUNT", "C04", "COUNT_IF (and every other aggregate the morsel accumulators lack) answered COUNT(x) over Parquet and its real value over memory"),
+ ("merging partial aggregate states dropped every state", "C07", "COUNT_IF / BOOL_AND / BOOL_OR / ANY_VALUE / bitwise / LISTAGG / ... partial states were dropped on merge: COUNT_IF returned 24 in a multi-batch multi-worker world and 52 from one batch"),
+ ("GROUP BY a BOOLEAN column failed on the hash-aggregate path", "C04", "GROUP BY a Boolean key answered over Parquet (morsel path) and failed over memory and on the gather path with 'Group by type not supported: Boolean'"),
  ("late cross-process sidecar builder deleted", "C20", "a second process finishing its sidecar build removed the directory another process had just published while readers were opening its files: queries failed with ENOENT"),
 ]
 kf_path = os.path.join(HERE, "known_findings.json")
